@@ -32,7 +32,7 @@ type c20vlan struct {
 	nn, ncl  int
 	store    [c20maxEnt]*nexus.NTE
 	state    c20vstate
-	ever     map[c20pair]bool // pairs that have been held by somebody
+	ever     map[c20pair]bool // pairs that have been held by somebody and were released through the API since
 	hist     c20hist
 	segInit  c20vstate
 	segConc  bool
@@ -136,8 +136,8 @@ func (w *c20vlan) call(client int, in c20vin) c20vout {
 	if in.Kind != "sync" {
 		w.hist.ret(client, in, out, st)
 	}
-	if out.P != (c20pair{}) {
-		w.ever[out.P] = true
+	if (in.Kind == "alloc" || in.Kind == "allocs") && !out.Err {
+		delete(w.ever, out.P) // held again
 	}
 	return out
 }
@@ -227,6 +227,9 @@ func (w *c20vlan) seq(op sim.Op) {
 		c.Fail("others-unchanged", "vlan/"+name+"/other-changed", "%s(%s) changed the pair of %s from %v to %v", name, c20nte(n), c20nte(o), pre[o], post[o])
 	}
 	held := pre[n] != (c20pair{})
+	if held && post[n] != pre[n] && (in.Kind == "release" || (in.Kind == "allocs" && !out.Err)) {
+		w.ever[pre[n]] = true // released through the API (Release, or re-allocation under another outer tag)
+	}
 	switch in.Kind {
 	case "alloc", "allocs":
 		same := held && (in.Kind == "alloc" || pre[n].S == in.S)
@@ -315,9 +318,6 @@ func (w *c20vlan) load(kind string) {
 		if w.store[n] != nil {
 			stored = c20pair{w.store[n].STag, w.store[n].CTag}
 		}
-		if post[n] != (c20pair{}) {
-			w.ever[post[n]] = true
-		}
 		if post[n] != (c20pair{}) && post[n] != stored && post[n] != pre[n] {
 			c.Fail("lookups-agree", "vlan/"+kind+"/invented-pair", "after %s %s holds %v (stored %v, held before %v)", kind, c20nte(n), post[n], stored, pre[n])
 		}
@@ -329,6 +329,21 @@ func (w *c20vlan) load(kind string) {
 			w.dupLoad = true
 		}
 	}
+	if w.dupLoad {
+		// when the finding is a listed one the run goes on: drop the NTEs that share a
+		// pair (and their stored records) so that the remaining checks start from a
+		// consistent allocator instead of re-reporting consequences of the same load
+		for n := 0; n < w.nn; n++ {
+			if post.holder(post[n], n) >= 0 {
+				w.v.Release(c20nte(n))
+				w.store[n] = nil
+			}
+		}
+		w.dupLoad = false
+		w.state = w.snapshot()
+		w.segInit = w.state
+	}
+	w.hist.ops = nil // the next segment starts from segInit
 }
 
 func (w *c20vlan) par(client int, op sim.Op) {
@@ -442,6 +457,9 @@ func (w *c20vlan) finish() {
 	// every released pair must be reusable: release everything, then allocate
 	// as many fresh NTEs as the ranges hold pairs
 	for n := 0; n < w.nn; n++ {
+		if w.state[n] != (c20pair{}) {
+			w.ever[w.state[n]] = true
+		}
 		w.v.Release(c20nte(n))
 	}
 	if st := w.snapshot(); st != (c20vstate{}) {
@@ -478,6 +496,6 @@ func (w *c20vlan) finish() {
 		if w.reloaded {
 			sfx = "/after-reload"
 		}
-		c.Fail("reusable", "vlan/reuse/released-pair-never-reissued"+sfx, "after releasing every NTE only %d of the %d previously held in-range pairs could be allocated again (%d pairs configured)", got, want, total)
+		c.Fail("reusable", "vlan/reuse/released-pair-never-reissued"+sfx, "after releasing every NTE only %d of the %d in-range pairs released during the run could be allocated again (%d pairs configured)", got, want, total)
 	}
 }
